@@ -121,6 +121,7 @@ func main() {
 	var cases []func()
 	cases = append(cases, successMatrix(e)...)
 	cases = append(cases, outputFaults(e)...)
+	cases = append(cases, inputFaults(e)...)
 	cases = append(cases, damagedInputs(e)...)
 	cases = append(cases, sameFile(e)...)
 	cases = append(cases, keygenCases(e)...)
